@@ -15,6 +15,11 @@ func init() {
 }
 
 func c10(c *q.Ctx) {
+	// a zero transfer is refused before it reaches the reader: the live reader selects nothing for amount zero while the
+	// replay reader consumes one declared input, so the two executions would diverge
+	if tr := c.Fn("bcs/ledger/xledger/state/utxo::(*UTXOSandbox).Transfer"); tr != nil {
+		c.Guard(tr, q.Cond{Canon: "(0 == big.(*Int).Cmp(p3,*))", Sense: true}, q.ToCall("UtxoReader.SelectUtxo"), q.Opt{})
+	}
 	// range bounds of the in-memory model that backs the read cache, the write cache and the replay reader: an
 	// open-ended scan ends at the first key GREATER than every key of the bucket (prefixEnd of the bucket prefix),
 	// not at some key inside the bucket's key space
